@@ -367,6 +367,8 @@ def generate(rng, feat=None, tries=60):
         if not a.transactions:
             continue
         prog = add_relations(rng, prog, f)
+        prog = add_forwarding(rng, prog, f)
+        prog = mark_single_callers(rng, prog)
         a = Analysis(prog)
         if a.defects():
             continue
@@ -378,4 +380,93 @@ def generate(rng, feat=None, tries=60):
     g = Gen(rng, {**f, "max_trans": 1, "max_meth": 1, "p_ctrl": 0, "p_nested": 0, "p_wrap": 0})
     prog = g.program()
     prog["gen_attempts"] = tries + 1
+    return prog
+
+
+# ------------------------------------------------------------------------------------------------
+# post-processing features
+
+
+def _bodies_nodes(prog):
+    out = {}
+
+    def rec(nodes):
+        for k, n in nodes:
+            if k in ("T", "M"):
+                out[n["id"]] = (k, n)
+                rec(n["body"])
+            elif k == "If":
+                for _, sub in n["arms"]:
+                    rec(sub)
+                if n.get("else") is not None:
+                    rec(n["else"])
+            elif k == "Sw":
+                for _, sub in n["cases"]:
+                    rec(sub)
+                if n.get("default") is not None:
+                    rec(n["default"])
+            elif k == "Fsm":
+                for st in n["states"]:
+                    rec(st["body"])
+            elif k == "Cond":
+                for br in n["branches"]:
+                    rec(br["body"])
+
+    for nodes in prog["tree"]:
+        rec(nodes)
+    return out
+
+
+def add_forwarding(rng, prog, feat):
+    """Forwarder-style readiness: B.ready = input | A.run with A.schedule_before(B) (DESIGN.md 3.1)."""
+    f = dict(DEFAULT_FEAT)
+    f.update(feat or {})
+    if rng.random() >= f["p_fwd"]:
+        return prog
+    a = Analysis(prog)
+    ids = [i for i, b in a.bodies.items() if b.branch_of is None]
+    for _ in range(6):
+        if len(ids) < 2:
+            break
+        x, y = rng.sample(ids, 2)
+        if a.bodies[x].order > a.bodies[y].order:
+            x, y = y, x
+        # not nested in each other, no transaction reaching both
+        anc = set()
+        p = a.bodies[y].parent
+        while p:
+            anc.add(p)
+            p = a.bodies[p].parent
+        if x in anc:
+            continue
+        if set(a.trans_for.get(x, [])) & set(a.trans_for.get(y, [])):
+            continue
+        if not a.trans_for.get(x) or not a.trans_for.get(y):
+            continue
+        trial = copy.deepcopy(prog)
+        nodes = _bodies_nodes(trial)
+        if y in {m["id"] for m in trial["methods"]}:
+            tgt = next(m for m in trial["methods"] if m["id"] == y)
+        else:
+            tgt = nodes[y][1]
+        if tgt.get("rdy_run"):
+            continue
+        tgt["rdy_run"] = x
+        trial["relations"].append({"kind": "before", "a": x, "b": y, "rdep": False})
+        ta = Analysis(trial)
+        if ta.defects():
+            continue
+        prog = trial
+        a = ta
+        if rng.random() < 0.6:
+            break
+    return prog
+
+
+def mark_single_callers(rng, prog, p=0.3):
+    a = Analysis(prog)
+    for md in prog["methods"]:
+        n = sum(1 for s in a.sites.values() if s.target == md["id"])
+        if n == 1 and rng.random() < p:
+            md["single"] = True
     return prog
